@@ -664,7 +664,7 @@ def record_fn(template, desc, rts, fn, tol=TOL, extra=None):
     return it
 
 
-PYTH_VECS = {2: [(3, 4), (4, 3), (5, 12), (8, 15), (1, 0)], 3: [(1, 2, 2), (2, 3, 6), (2, 1, 2), (6, 2, 3)], 4: [(1, 1, 1, 1), (2, 4, 5, 6), (1, 2, 2, 4), (1, 1, 3, 5)]}
+PYTH_VECS = {2: [(3, 4), (4, 3), (5, 12), (8, 15)], 3: [(1, 2, 2), (2, 3, 6), (2, 1, 2), (6, 2, 3)], 4: [(1, 1, 1, 1), (2, 4, 5, 6), (1, 2, 2, 4), (1, 1, 3, 5)]}
 
 
 def rand_pauli_sum(rng, tw, nterms=None, pyth=False, commuting=False, allow_identity=False):
@@ -709,6 +709,8 @@ def chk_psp(rng, tier, which=None):
     tw = lab[:nt]
     coeffs, words, ops, Hm = rand_pauli_sum(rng, tw, nterms, pyth=rng.random() < 0.3)
     nterms = len(words)
+    if nterms < 2:
+        return None          # a single bare Pauli word is not a linear combination (lcu.terms() undefined): not a documented input
     nc = max(1, math.ceil(math.log2(nterms))) + (1 if rng.random() < 0.2 else 0)
     control = lab[nt:nt + nc]
     # operator wires: use the wires actually present in the sum (a wire carrying only identities may be absent)
@@ -1380,7 +1382,7 @@ def part_b(rng, tier):
     RNG_B = random.Random(rng.random())
     thorough = tier != "quick"
     # ---- Permute (no parameters): against the permutation matrix
-    for _ in range(3 if not thorough else 10):
+    for _ in range(2 if not thorough else 10):
         n = rng.randint(2, 4)
         wires = list(range(n)); perm = wires[:]; rng.shuffle(perm)
         def build(wires=wires, perm=perm, n=n):
@@ -1391,14 +1393,14 @@ def part_b(rng, tier):
             return qp.Permute(perm, wires=wires), wires, ("matrix", list(range(n)), s_const(ref), all_cols(n))
         b_case(f"Permute{perm}", 0, build)
     # ---- FlipSign
-    for _ in range(3 if not thorough else 8):
+    for _ in range(2 if not thorough else 8):
         n = rng.randint(1, 4); s = rng.randrange(2 ** n)
         def build(n=n, s=s):
             ref = np.eye(2 ** n); ref[s, s] = -1
             return qp.FlipSign(bits_of(s, n), wires=list(range(n))), list(range(n)), ("matrix", list(range(n)), s_const(ref), all_cols(n))
         b_case(f"FlipSign[{n},{s}]", 0, build)
     # ---- Select with formal rotation angles: block-diagonal matrix sum_k |k><k| (x) U_k
-    for trial in range(3 if not thorough else 8):
+    for trial in range(2 if not thorough else 8):
         c = rng.randint(1, 2); K = rng.randint(2, 2 ** c)
         kinds = [rng.choice(["RX", "RY", "RZ", "X", "H", "PS"]) for _ in range(K)]
         nv = sum(1 for k in kinds if k in ("RX", "RY", "RZ", "PS"))
@@ -1422,7 +1424,7 @@ def part_b(rng, tier):
             return op, list(range(n)), ("matrix", list(range(n)), M, all_cols(n))
         b_case(f"Select[c={c},{'/'.join(kinds)}]", max(nv, 0), build)
     # ---- QROM small tables: on the documented domain (target register |0>)
-    for trial in range(3 if not thorough else 8):
+    for trial in range(2 if not thorough else 8):
         c = rng.randint(1, 2); b = rng.randint(1, 2); m = rng.randint(2 ** (c - 1) + (1 if c > 1 else 0), 2 ** c)
         nw = rng.choice([0, b]); clean = rng.random() < 0.5
         data = [[rng.randint(0, 1) for _ in range(b)] for _ in range(m)]
@@ -1444,7 +1446,7 @@ def part_b(rng, tier):
             return op, wo, ("matrix", wo, s_const(ref), cols)
         b_case(f"QROM[c={c},b={b},m={m},work={nw},clean={clean}]", 0, build)
     # ---- Reflection about U|0> with formal angle alpha: U D(alpha) U^dagger, D = -I + (1 - e^{i alpha}) |0><0|
-    for trial in range(3 if not thorough else 8):
+    for trial in range(2 if not thorough else 8):
         n = rng.randint(1, 3)
         kinds = [rng.choice(["H", "X", "S", "RYp"]) for _ in range(n)]
         with_cnot = n >= 2 and rng.random() < 0.5
@@ -1474,18 +1476,18 @@ def part_b(rng, tier):
             return qp.GroverOperator(wires=list(range(n))), list(range(n)), ("matrix", list(range(n)), s_const(ref), all_cols(n))
         b_case(f"GroverOperator[{n}]", 0, build)
     # ---- ControlledSequence of RX(theta): product of C_i(RX(2^(n-1-i) theta))
-    for nc in ((1, 2, 3) if not thorough else (1, 2, 3, 4)):
+    for nc in ((2, 3) if not thorough else (1, 2, 3, 4)):
         def build(nc=nc):
             op = qp.ControlledSequence(qp.RX(var(0), wires=nc), control=list(range(nc)))
             refg = [([i, nc], s_ctrl(s_rx(Lin.var(0) * (2 ** (nc - 1 - i))), [1])) for i in range(nc)]
             return op, list(range(nc + 1)), ("circuit", refg, all_cols(nc + 1))
         b_case(f"ControlledSequence[RX,{nc}]", 1, build, cfgs=((8, 8), (8, 16), (8, 32)))
     # ---- QFT / AQFT for n <= 3 (entries in Q(zeta_8))
-    for n in (1, 2, 3):
+    for n in ((2, 3) if not thorough else (1, 2, 3)):
         def build(n=n):
             return qp.QFT(wires=list(range(n))), list(range(n)), ("matrix", list(range(n)), s_const(dft(n)), all_cols(n))
         b_case(f"QFT[{n}]", 0, build)
-    for n, order in ((2, 1), (3, 1), (3, 2)):
+    for n, order in (((3, 1),) if not thorough else ((2, 1), (3, 1), (3, 2))):
         def build(n=n, order=order):
             return qp.AQFT(order=order, wires=list(range(n))), list(range(n)), ("matrix", list(range(n)), s_const(aqft_ref(n, order)), all_cols(n))
         b_case(f"AQFT[{n},order={order}]", 0, build)
@@ -1498,10 +1500,10 @@ def part_b(rng, tier):
             fs = [getattr(qp, ch)(i) for i, ch in enumerate(w) if ch != "I"]
             ops.append(qp.prod(*fs) if len(fs) > 1 else fs[0])
         return ops
-    for coeffs, words in (ham_sets if thorough else ham_sets[:3]):
+    for coeffs, words in (ham_sets if thorough else ham_sets[:2]):
         nt = len(words[0]); wo = list(range(nt))
         fl = [float(c) for c in coeffs]
-        for order, nst in (((1, 1), (2, 1), (1, 2)) if not thorough else ((1, 1), (2, 1), (1, 2), (2, 2))):
+        for order, nst in (((2, 1), (1, 2)) if not thorough else ((1, 1), (2, 1), (1, 2), (2, 2))):
             def build(coeffs=coeffs, words=words, order=order, nst=nst, fl=fl, nt=nt, wo=wo):
                 t = Lin.var(0)
                 H = qp.dot(fl, ham_op(coeffs, words))
@@ -1517,7 +1519,7 @@ def part_b(rng, tier):
                     step = S1(Fr(1, 2 * nst), J) + S1(Fr(1, 2 * nst), J[::-1])
                 return op, wo, ("circuit", step * nst, all_cols(nt))
             b_case(f"TrotterProduct[{words},order={order},n={nst}]", 1, build, cfgs=((8, 8), (8, 16), (8, 32)))
-        for nst in (1, 2):
+        for nst in ((2,) if not thorough else (1, 2)):
             def build(coeffs=coeffs, words=words, nst=nst, fl=fl, nt=nt, wo=wo):
                 t = Lin.var(0)
                 H = qp.Hamiltonian(fl, ham_op(coeffs, words))
